@@ -86,6 +86,8 @@ pub enum Op {
     Checkpoint { doc: usize },
     Restart { doc: usize },
     Reparse { doc: usize },
+    /// mutate the (read-only) entities / notations map of the document type: which = 0 entities set, 1 entities remove, 2 notations set, 3 notations remove
+    DtMap { doc: usize, which: usize, name: String },
 }
 
 #[derive(Clone, Debug, PartialEq)]
@@ -244,6 +246,7 @@ impl Step {
             Op::Checkpoint { doc } => W::new(t, "checkpoint").n("doc", *doc),
             Op::Restart { doc } => W::new(t, "restart").n("doc", *doc),
             Op::Reparse { doc } => W::new(t, "reparse").n("doc", *doc),
+            Op::DtMap { doc, which, name } => W::new(t, "dt_map").n("doc", *doc).n("which", *which).t("name", name),
         };
         w.s
     }
@@ -328,6 +331,7 @@ impl Step {
             "checkpoint" => Op::Checkpoint { doc: n("doc")? },
             "restart" => Op::Restart { doc: n("doc")? },
             "reparse" => Op::Reparse { doc: n("doc")? },
+            "dt_map" => Op::DtMap { doc: n("doc")?, which: n("which")?, name: t("name")? },
             _ => return None,
         };
         Some(Step { task, op })
@@ -380,6 +384,7 @@ impl Step {
             Op::Checkpoint { .. } => "checkpoint",
             Op::Restart { .. } => "restart",
             Op::Reparse { .. } => "reparse",
+            Op::DtMap { .. } => "dt_map",
         }
     }
 
@@ -412,6 +417,7 @@ impl Step {
                 | Op::DeleteData { .. }
                 | Op::ReplaceData { .. }
                 | Op::SplitText { .. }
+                | Op::DtMap { .. }
         )
     }
 
